@@ -67,6 +67,10 @@ DNS_CONFIGS = [
     ("tp=btcp,algs=6,dns=3,laddrs=1,ctos=1,dnstos=2,maxlen=2,canon=1,opts=3", 1, 2),
     ("tp=btcp,algs=6,dns=1,laddrs=3,ctos=1,minlen=3,maxlen=3,canon=1,opts=2", 0, 1),
     ("tp=tls,algs=6,dns=1,laddrs=1,ctos=1,maxlen=2,canon=1,opts=3", 1, 1),
+    # xcm.local_addr determines the source address - also when the name has several addresses and the bind fails or
+    # succeeds per candidate (every local-address kind of h_dns: port 0, fixed port, occupied port, foreign address)
+    ("tp=btcp,algs=6,dns=1,laddrs=30,ctos=1,maxlen=3,canon=1,opts=1", 0, 1),
+    ("tp=tls,algs=6,dns=1,laddrs=30,ctos=1,maxlen=2,canon=1,opts=1", 0, 1),
     ("tp=tcp,algs=6,dns=3,laddrs=3,ctos=3,dnstos=2,maxlen=2,canon=1,opts=3", None, 1),
     ("tp=btls,algs=6,dns=3,laddrs=1,ctos=1,dnstos=2,maxlen=2,canon=1,opts=3", None, 1),
     ("tp=utls,algs=6,dns=3,laddrs=1,ctos=1,dnstos=2,maxlen=2,canon=1,opts=3", None, 1),
@@ -86,6 +90,16 @@ def run_dns_part(chk, tier, jobs):
         if msgfamily.needs_tls(params):
             params += "," + msgfamily.certs()
         res = harnesses.explore(exe, params, bound, 120 if q else 600, jobs=jobs)
+        # h_dns reports a connection whose source differs from the accepted xcm.local_addr under C13 (the attempt
+        # algorithm); it is C11's clause "xcm.local_addr determines the source address" as well
+        res = dict(res)
+        vs = []
+        for v in res.get("violations", []):
+            if v["signature"].startswith("C13/local-addr/"):
+                v = dict(v)
+                v["signature"] = "C11/" + v["signature"][4:]
+            vs.append(v)
+        res["violations"] = vs
         harnesses.merge_into(chk, res, ("C11/",), params)
         for k in ("states", "transitions", "executions"):
             cov[k] = cov.get(k, 0) + res.get(k, 0)
